@@ -173,6 +173,11 @@ def batch_count(R):
                           any(_derived(F, fn, x, HEAD) for x in (strip_casts(a).get("l"), strip_casts(a).get("r"))) and any(_derived(F, fn, x, TAIL) for x in (strip_casts(a).get("l"), strip_casts(a).get("r")))]
                     if gs:
                         defs.append((p, e, gs))
+                    elif any(_derived(F, fn, x, HEAD) for x in subexprs(e.get("r")) if isinstance(x, dict)) and any(_derived(F, fn, x, TAIL) for x in subexprs(e.get("r")) if isinstance(x, dict)):
+                        defs.append((p, e, []))       # one branch-free formula over both cursors
+                if e.get("k") == "decl" and e.get("init") is not None and any(_derived(F, fn, x, HEAD) for x in subexprs(e.get("init")) if isinstance(x, dict) and x.get("k") == "var") \
+                        and any(_derived(F, fn, x, TAIL) for x in subexprs(e.get("init")) if isinstance(x, dict) and x.get("k") == "var") and not fn.guard_atoms(p):
+                    defs.append((p, {"r": e.get("init"), "loc": e.get("loc"), "k": "decl"}, []))
             if not defs:
                 continue
             n += 1
